@@ -177,11 +177,16 @@ def run_cases(exe, cases, d, tag="x", cpu_s=20, flags=""):
             break
         if p.returncode == 3:
             start = done
+            if sum(1 for r in results.values() if r['status'] == 'timeout') >= 4:
+                break
             continue
         results[done] = {'id': cases[done]['id'], 'idx': done, 'status': 'crash', 'rc': p.returncode,
                          'stderr': p.stderr.decode(errors='replace')[-2000:]}
         start = done + 1
-    return [results.get(i, {'id': cases[i]['id'], 'idx': i, 'status': 'missing'}) for i in range(len(cases))]
+        if sum(1 for r in results.values() if r['status'] == 'crash') >= 25:
+            break                      # enough evidence; the remaining cases are reported as skipped
+    ncr = sum(1 for r in results.values() if r['status'] in ('crash', 'timeout'))
+    return [results.get(i, {'id': cases[i]['id'], 'idx': i, 'status': 'skipped' if ncr >= 4 else 'missing'}) for i in range(len(cases))]
 
 
 def validate(records, d, tag="xv", module="XRunV", cfg="XRunV.cfg"):
